@@ -214,6 +214,10 @@ def check_E1(ctx, facts):
                 ctx.ob('C10.E1', 'wrapper|%s' % last_seg(b.name), good, site(b, t['cs']),
                        'wrapper %s routes its parts to the packer by the same names (%s)' % (last_seg(b.name), ', '.join(detail)) if good else
                        'wrapper %s hands the packer the wrong part: %s' % (last_seg(b.name), ', '.join(detail)))
+    check_writers(ctx, facts, family)
+
+
+def check_writers(ctx, facts, family, family_inlined=()):
     # every writer of the word: HLCTimestamp aggregates outside the packer-fed ones
     writers = 0
     for b in facts.bodies.values():
@@ -231,6 +235,9 @@ def check_E1(ctx, facts):
                         if t['dest']['l'] in back and cname(t) and (cname(t) in family or cname(t).startswith('rend::')):
                             src_ok = True
                     if any(x in back for x in range(1, b.argc + 1)) and b.name in (HT + 'from_u64',):
+                        src_ok = True
+                    # an extracted helper that was inlined at load (normalize.py): the same helper the constructor packs with
+                    if any(s_.get('inl') in family_inlined for _b2, _j2, s_ in b.assigns() if s_['lhs']['l'] in back):
                         src_ok = True
                     if 'rkyv::' in (b.impl or ''):
                         src_ok = True
@@ -330,10 +337,26 @@ def check_E3(ctx, facts):
                     if l is not None and l in val_locals and not (set(rflow.backward([l])) & {tt['dest']['l'] for _, tt in fs.calls() if cname(tt) and cname(tt).startswith(T)}):
                         fld = fld or pn.get(i + 1)
         reader.append({'field': fld, 'radix': radix, 'ty': ty, 'line': t['cs']})
+    # the reader by interpretation (bits_abs): which piece, parsed with which radix into which integer type, lands in which field
+    split_done = False
+    try:
+        import bits_abs, absint as _ai
+        layout = {'seconds': 32, 'fractional': 24, 'counter': 8, 'node': 0}
+        lay_obs = [o for o in ctx.obs if o.rule == 'C10.SEM' and o.key == 'layout|new' and o.ok]
+        if lay_obs:
+            by_piece, splits = bits_abs.reader_by_interpretation(facts, fs, layout)
+            reader = [{'field': by_piece.get(i, (None, None, None))[0], 'radix': by_piece.get(i, (None, None, None))[1], 'ty': by_piece.get(i, (None, None, None))[2],
+                       'line': fs.line} for i in range(max(by_piece) + 1)]
+            if len(splits) == 1:
+                nsp, sep = next(iter(splits))
+                ctx.ob('C10.E3', 'split', nsp == len(writer) and sep == 45, site(fs), 'reader splits into %s pieces on %r' % (nsp, chr(sep) if sep else sep))
+                split_done = True
+    except (_ai.Unmodelled, _ai.NeedChoice, IndexError, TypeError, KeyError, AttributeError, ValueError) as e:
+        ctx.note = getattr(ctx, 'note', []) + ['C10.E3: reader not interpreted (%s); structural reader used' % e]
     ctx.ob('C10.E3', 'arity', len(writer) == len(reader) == 4, site(fs),
            'writer emits %d fields, reader parses %d (4 expected)' % (len(writer), len(reader)))
     # split arity
-    for b, t in fs.calls():
+    for b, t in ([] if split_done else list(fs.calls())):
         if cname(t) == 'core::str::<impl str>::splitn':
             nsp = const_int(t['args'][1])
             sep = const_int(t['args'][2]) if len(t['args']) > 2 else None
@@ -414,8 +437,24 @@ def check_E5(ctx, facts):
 
 def check(ctx):
     facts = ctx.facts('prod')
-    check_E5(ctx, facts)
-    check_E1(ctx, facts)
+    # SEM: the packed word by bit-vector interpretation from the public constructor and accessors (bits_abs): layout, significance
+    # order, read-back of every field, identities, resolution of the fraction.  Subsumes E5 and the packer / accessor / wrapper part
+    # of E1 (kept as fallback); the who-writes-the-word clause stays structural.
+    import bits_abs
+    if bits_abs.check_layout(ctx, facts, 'C10.SEM'):
+        cg = CallGraph(facts)
+        new = facts.body(HT + 'new')
+        fam = {b.name for b in cg.reach([new], bound=4) if b.crate == 'datacake_crdt' and b.local_ty(0) == 'u64'} if new is not None else set()
+        import inline as _inl
+        fam_inl = set()
+        if new is not None:
+            for rb in cg.reach([new], bound=4):
+                if rb.crate == 'datacake_crdt':
+                    fam_inl |= {x for x in _inl.inlined_callees(rb)}
+        check_writers(ctx, facts, fam, fam_inl)
+    else:
+        check_E5(ctx, facts)
+        check_E1(ctx, facts)
     c04.check_T1(ctx, facts)
     for o in ctx.obs:
         if o.rule == 'C04.T1':
